@@ -28,9 +28,11 @@ TRANSFORMS = {
     "in_head": ("head -c 4096 $IN", lambda b: b[:4096]),
     "in_out_dd": (H + "/cpfirst.sh $IN $OUT", lambda b: b),
     # fails (after 64 bytes of output) on inputs whose 65th byte is odd: such files are left out
+    # rewrites its input file and prints nothing: with --in-place the result is the file, without it the (empty) output
+    "in_keep3000": (H + "/keep3000.sh $IN", lambda b: b[:3000]),
     "failodd": (H + "/failodd.sh", lambda b: b[:64] if len(b) <= 64 or b[64] % 2 == 0 else None),
 }
-UNSAMPLED_TRANSFORMS = {"failodd"}
+UNSAMPLED_TRANSFORMS = {"failodd", "in_keep3000"}
 
 
 def sample_opts(r, allow_transform=True, allow_rf=True, allow_links=True, allow_cache=True):
@@ -77,6 +79,8 @@ def group_argv(o, roots, fmt="json", extra=()):
         a += [b"--skip-content-hash"]
     if o.get("no_copy"):
         a += [b"--no-copy"]
+    if o.get("in_place"):
+        a += [b"--in-place"]
     if o.get("match_links"):
         a += [b"-H"]
     if o.get("symbolic_links"):
